@@ -69,6 +69,13 @@ def build(form, trajs, dtypes=None, layout=None):
         buf = np.zeros(2 * len(trajs[0]), dtype=dt(0))
         buf[::2] = trajs[0]
         return buf[::2]
+    if form == 'loas' and len(trajs) >= 2 and len(trajs) % 2 == 0 and (dtypes is None or len(set(dtypes)) == 1) and all(len(t) for t in trajs):
+        # contiguous views that together cover ONE buffer, which holds the trajectories in REVERSED order
+        # (memory order differs from list order; what counts is the list)
+        base = np.concatenate([np.array(t, dtype=dt(0)) for t in reversed(trajs)])
+        ends = np.cumsum([len(t) for t in reversed(trajs)])
+        views = [base[e - len(t):e] for e, t in zip(ends, reversed(trajs))]
+        return views[::-1]
     if form == 'loas':        # list of strided / reversed-twice views
         out = []
         for k, t in enumerate(trajs):
